@@ -452,8 +452,9 @@ class BlockTr:
             return self.run(rest, env)
         if isinstance(s, ast.Expr) and isinstance(s.value, ast.Call):
             fn = re.sub(r"\s+", "", ast.unparse(s.value.func))
-            for k, v in self.effects.items():
-                if fn == k or fn.endswith("." + k):
+            # exact callee names first, then the longest suffix (`np.random.seed` is not `random.seed`)
+            for k, v in sorted(self.effects.items(), key=lambda kv: -len(kv[0])):
+                if fn == k or (fn.endswith("." + k) and fn not in self.effects):
                     # effect v is reached on this path; `effseq_v_u` records whether effect u had been reached before
                     for u in dict.fromkeys(self.effects.values()):
                         if u != v and ("effseq_%s_%s" % (v, u)) not in env:
@@ -493,7 +494,8 @@ def extract_block(item):
     outputs [{"var": name, "type": T}] (name: sanitized variable, "ret" for the return value, "eff_X" for an effect),
     leaf_types {leaf: T}, type (default leaf type, else α), skip [needles], havoc [needles], effects {callee: X},
     opaque {python expression: leaf}, no_return (Lean term for `ret` on a path that falls off the end),
-    effect_arg {X: argument index} (output `effarg_X`), lenient (untranslatable simple statements / tests / nested loops
+    effect_arg {X: argument index} (output `effarg_X`), effects_absent_false (a listed effect no path reaches is `false`
+    instead of making the item unavailable), lenient (untranslatable simple statements / tests / nested loops
     become unknowns instead of making the item unavailable), strict (false: extra assigned variables are allowed),
     type_params / alpha_from_section (binders supplied by the template), list_mode (lists of string constants:
     literals, `[*xs, "a"]`, `xs + [...]`, `xs.append(v)`), calls {callee: lean function}. Statement forms: assignments
@@ -519,6 +521,14 @@ def extract_block(item):
     env = bt.run(stmts, {})
     outs = []
     for o in item["outputs"]:
+        if o["var"] not in env and item.get("effects_absent_false") and o["var"].startswith(("eff_", "effseq_")):
+            # no path of the block reaches that call any more: the effect does not happen (item option; without it a
+            # vanished call is read as "restructured" and the tie is unavailable)
+            outs.append("false")
+            continue
+        if o["var"] not in env and item.get("effects_absent_false") and o["var"].startswith("effarg_"):
+            outs.append(bt.cur(env, o["var"]))
+            continue
         if o["var"] not in env and not o.get("optional"):
             raise Unsupported(f"{item['name']}: block does not assign {o['var']}")
         outs.append(bt.cur(env, o["var"]))
